@@ -121,6 +121,8 @@ def jt_record_validate(prop, tier, seed, res, n, exe=None, checks=("verdict", "p
                               "trace_file": r["file"], "line_no": r["line_no"]})
     c = res.coverage
     c["traces_validated_against_impl"] += accepted
+    c["states"] += accepted + len(files)
+    c["transitions"] += accepted
     c["evaluations"] += summ["events"]
     c.setdefault("record", {})["jt"] = dict(summ, accepted_lines=accepted, rejected=len(rejects))
     if summ["events"]:
@@ -213,6 +215,8 @@ def lg_record_validate(prop, tier, seed, res, n, checks, exe=None):
                               "trace_file": r["file"], "line_no": r["line_no"]})
     c = res.coverage
     c["traces_validated_against_impl"] += accepted
+    c["states"] += accepted + len(files)          # TLC states of the trace specification (one per consumed line + initial)
+    c["transitions"] += accepted
     c["evaluations"] += summ["events"]
     c.setdefault("record", {})["lg"] = dict(summ, accepted_lines=accepted, rejected=len(rejects))
     with open(files[0]) as f:
